@@ -527,7 +527,8 @@ def gen(rng, tier):
             c.append("xrl " + hexs(t))
         if rng.random() < 0.5:
             # the same text written with the asl API, read back line by line from a session
-            c += ["tput 1b " + hexs(t), "open 1b t r"] + ["rl"] * rng.randrange(1, 6) + ["end", "close", "lines 1b", "text 1b"]
+            c += ["tput 1b " + hexs(t), "open 1b t r"] + [rng.choice(["rl", "rl", "rl", "rlc 0a", "rlc 0d", "rlc 3b"]) for _ in range(rng.randrange(1, 7))]
+            c += ["end", "close", "lines 1b", "text 1b"]
         cases.append(c)
     # B4: long lines / many lines
     for n in ([3000, 65536, 200000] if quick else [3000, 65536, 200000, 1 << 20, 1 << 22]):
@@ -585,11 +586,13 @@ def gen_history(rng, xdev_ok):
                 c.append("%s %s" % (op, btok(rng, n)))
             continue
         if in_sess == "r" and r < 0.6:
-            op = rng.choice(["r", "r", "rl", "end", "seek", "pos"])
+            op = rng.choice(["r", "r", "rl", "rl", "rlc", "end", "seek", "pos"])
             if op == "r":
                 c.append("r %d" % rng.choice([0, 1, 2, 3, 254, 255, 4096, 100000]))
             elif op == "seek":
                 c.append("seek %d" % rng.randrange(0, 100000))
+            elif op == "rlc":
+                c.append("rlc %02x" % rng.choice([10, 13, 59, 97, 120, rng.randrange(1, 256)]))
             else:
                 c.append(op)
             continue
@@ -630,6 +633,21 @@ def gen_history(rng, xdev_ok):
         in_sess = None
     c += ["close", "raw " + main, "content " + main, "size " + main, "raw " + other]
     return c
+
+
+def simplify_line(line):
+    """shorter byte-string arguments for a failing line (tried after ddmin)"""
+    t = line.split()
+    for i, tk in enumerate(t[1:], 1):
+        if re.fullmatch(r"(?:[0-9a-f]{2}){5,}", tk):
+            for cand in (tk[:2], tk[-2:], tk[:8], tk[-8:], "61", "0d0a"):
+                yield " ".join(t[:i] + [cand] + t[i + 1:])
+        m = re.fullmatch(r"([gt])(\d+)\.(\d+)", tk)
+        if m and int(m.group(2)) > 0:
+            n = int(m.group(2))
+            for k in (n // 2, n - 1, 65537, 65536, 255, 1):
+                if 0 <= k < n:
+                    yield " ".join(t[:i] + ["%s%d.1" % (m.group(1), k)] + t[i + 1:])
 
 
 # ------------------------------------------------------------------------------------------------ reporting
@@ -719,9 +737,10 @@ LEVEL_TEXT = ("Proved in Lean 4 about the executable model the driver runs (AslM
               "fgets chunk size >= 2 (lines_spec; 255 is regenerated from the source); each readLine(String&) call returns the next line and "
               "leaves the stream behind its LF, the last unterminated piece sets EOF (readLine_lf, readLine_last); text() returns a file "
               "without byte-order mark unchanged, drops the UTF-8 signature, and returns every NUL-free scalar-value sequence behind a "
-              "UTF-16LE/BE mark as its UTF-8 encoding provided it has no adjacent CR LF (text_utf8, text_bom_utf8, text_utf16_partial, via C08's "
-              "utf16_utf8_std), never reading outside its buffers on any bytes (text_total); the full UTF-16 statement is refuted by CR LF "
-              "(text_utf16_crlf_counterexample, known finding); any history of put / TextFile write / append / objects opened in READ, WRITE, "
+              "UTF-16LE/BE mark as the UTF-8 encoding of that sequence with every CR LF folded to LF and nothing else changed (text_utf16_fold, "
+              "through C08's utf16toUtf8 model), hence as its own UTF-8 encoding whenever it has no adjacent CR LF (text_utf8, text_bom_utf8, "
+              "text_utf16_partial), never reading outside its buffers on any bytes (text_total); the full UTF-16 statement is refuted by CR LF "
+              "(text_utf16_crlf_counterexample, known finding); readLine(char) returns the bytes before the next delimiter (readLine_delim); any history of put / TextFile write / append / objects opened in READ, WRITE, "
               "APPEND, RW mode and written through any number of times leaves exactly the bytes a reference store predicts and touches no "
               "other path (store_refines), and content/size/firstBytes/read return those bytes (read_back, read_seq, written_is_read); the "
               "Directory::copy block loop writes exactly the source for every size and block size (copy_exact), copy and move (rename or "
